@@ -215,12 +215,13 @@ def run_shard(shard, tier, seed):
                     expect_invalid(rep, mk(host, None, s3, ["/"] * len(s3)), False, "odd-segment-count")
                     # replacement
                     if i % 2 == 0:
-                        for bad in ("backplan", "bpp", "eth", "x", "-1", "bp "):
+                        for bad in ("backplan", "bpp", "eth", "x", "-1", "bp ", " bp", "+1", " 1", "1 ", "1_8", "2\t", "1.0", "0x1", "1e0", "b p", "bp\n"):
                             s4 = list(segs)
                             s4[i] = bad
                             expect_invalid(rep, mk(host, None, s4, seps), False, "unknown-port")
                     else:
-                        for bad in ("256", "-1", "1000", "x", "1.2.3", "1.2.3.4.5", "300.1.1.1", "a.b.c.d", "1..2.3"):
+                        for bad in ("256", "-1", "1000", "x", "1.2.3", "1.2.3.4.5", "300.1.1.1", "a.b.c.d", "1..2.3", "+3", " 3", "3 ", "2_5", "3\t", "3.0", "0x3", "1e1",
+                                    "10.11.12", "10.11.1213", "10.11.12.13 ", " 10.11.12.13", "10.11.12.0x13", "10.11.12.13.", ".10.11.12.13", "10.11.12.+13", "10.11.12.1_3"):
                             s4 = list(segs)
                             s4[i] = bad
                             expect_invalid(rep, mk(host, None, s4, seps), False, "link-out-of-range")
